@@ -35,6 +35,12 @@ def FundingParams.change (p : FundingParams) (cur : Int) (l s diffFactor : Nat) 
     else .noChange
   else .increase
 
+instance instDecEqExcept {ε α : Type} [DecidableEq ε] [DecidableEq α] : DecidableEq (Except ε α)
+  | .ok a, .ok b => if h : a = b then isTrue (by rw [h]) else isFalse (by intro e; cases e; exact h rfl)
+  | .error a, .error b => if h : a = b then isTrue (by rw [h]) else isFalse (by intro e; cases e; exact h rfl)
+  | .ok _, .error _ => isFalse (by intro e; cases e)
+  | .error _, .ok _ => isFalse (by intro e; cases e)
+
 def natAbsDiff (a b : Nat) : Nat := if a ≥ b then a - b else b - a
 
 def optE {α : Type} (e : FErr) : Option α → Except FErr α
